@@ -452,11 +452,18 @@ impl Range {
         let mut predicates = Vec::new();
 
         for lefty in &self.0 {
+            // What is left of `lefty` once every alternative of `other` has been removed from it.
+            let mut remaining = vec![lefty.clone()];
             for righty in &other.0 {
-                if let Some(mut range) = lefty.difference(righty) {
-                    predicates.append(&mut range)
+                let mut pieces = Vec::new();
+                for piece in &remaining {
+                    if let Some(mut range) = piece.difference(righty) {
+                        pieces.append(&mut range)
+                    }
                 }
+                remaining = pieces;
             }
+            predicates.append(&mut remaining);
         }
 
         if predicates.is_empty() {
